@@ -16,6 +16,7 @@ NOT_DECIDED = "that the exported value equals the component's current value (fid
 TRUSTED_BASE = ["bevy_reflect / bevy_scene APIs", "rules are kept sorted by priority by ReplicationRules::insert"]
 
 RULE = "bevy_replicon::shared::replication::replication_rules::ReplicationRule"
+NON_EXHAUSTIVE = ("last", "first", "ends_with", "starts_with", "len", "is_empty", "last_mut", "first_mut", "back", "front", "peek")
 PUSHY = ("push", "push_back", "push_front", "insert", "extend", "extend_from_slice", "append")
 
 
@@ -122,6 +123,7 @@ def r1_dedup(ctx):
                     continue
                 ok = False
                 why = []
+                unsound = []
                 for (sbb, cond, outs) in required_outcomes(F, body, bb):
                     if sbb not in blocks:
                         continue
@@ -131,12 +133,32 @@ def r1_dedup(ctx):
                     on_memory = bool(deps & memory)
                     why.append((sbb, on_item, on_memory))
                     if on_item and on_memory:
-                        ok = True
+                        # the membership test has to look at *everything* accumulated so far
+                        partial = []
+                        for (k, d) in deps:
+                            if k != "call":
+                                continue
+                            ct = body.blocks[d].term
+                            m2 = callee_decl(ct).rsplit("::", 1)[-1]
+                            if not ct.get("args") or not (dep_closure(body, ct["args"][0]) & memory):
+                                continue
+                            if m2.startswith("binary_search"):
+                                # sound only if the collection is kept sorted: filled by insert() at the position the search returned
+                                sorted_fill = all(callee_decl(t2).rsplit("::", 1)[-1] == "insert" and len(t2["args"]) >= 3 and ("call", d) in dep_closure(body, t2["args"][1])
+                                                  for (b2, t2, recv2, _) in sites if dep_closure(body, t2["args"][0]) & dep_closure(body, ct["args"][0]) & memory)
+                                if not sorted_fill:
+                                    partial.append("%s over a collection that is appended to, not kept sorted" % m2)
+                            elif m2 in NON_EXHAUSTIVE:
+                                partial.append("`%s` looks at one end / the size of the collection only" % m2)
+                        if partial:
+                            unsound.extend(partial)
+                        else:
+                            ok = True
                 key = "%s/%s" % (short(root), callee_decl(t).rsplit("::", 1)[-1])
                 ctx.check(ok, key, site_of(body, bb),
                           "components of matching rules are accumulated without checking whether the component was already "
                           "taken from a higher-priority rule: two overlapping rules make this consumer emit the shared component twice "
-                          "(guards seen: %s)" % why,
+                          "(guards seen: %s%s)" % (why, "; membership test is not exhaustive: %s" % unsound if unsound else ""),
                           "accumulation guarded by a test depending on the current component and on what was accumulated so far")
 
 
